@@ -199,3 +199,129 @@ Theorem step_refines_partial_set_named_item : forall w (r a : nref),
   DomL1.conforms (abs w) (DomL1.ASetNamedItem r a) (abs (fst (step w (SetNamedItem r a))))
                  (outcome_class (snd (step w (SetNamedItem r a)))).
 Proof. intros w r a Hw Hp. rewrite conforms_conf. cbn [step DomL1.dom_step]. apply set_attribute_node_refines; assumption. Qed.
+
+(** ** remove_attribute: by-name removal *)
+Lemma split_colon_prefix (p l : str) : ~ In 58 p -> split_colon (p ++ 58 :: l) = Some (p, l).
+Proof.
+  induction p as [|a p IH]; intros H; cbn [app split_colon].
+  - unfold colon. rewrite N.eqb_refl. reflexivity.
+  - destruct (N.eqb_spec a colon) as [E|E]; [exfalso; apply H; left; unfold colon in E; congruence|].
+    rewrite IH by (intros Hin; apply H; right; exact Hin). reflexivity.
+Qed.
+
+Lemma split_colon_none (l : str) : ~ In 58 l -> split_colon l = None.
+Proof.
+  induction l as [|a l IH]; intros H; cbn [split_colon]; [reflexivity|].
+  destruct (N.eqb_spec a colon) as [E|E]; [exfalso; apply H; left; unfold colon in E; congruence|].
+  rewrite IH by (intros Hin; apply H; right; exact Hin). reflexivity.
+Qed.
+
+Lemma local_part_qname it : qname_ok (iprefix it) (ilocal it) = true -> DomL1.local_part (qname it) = ilocal it.
+Proof.
+  unfold qname_ok, qname, DomL1.local_part. intros H. apply andb_true_iff in H. destruct H as [P L].
+  apply ncname_no_colon in L. destruct (iprefix it) as [p|].
+  - apply ncname_no_colon in P. cbn [app]. rewrite split_colon_prefix by exact P. try reflexivity.
+  - rewrite split_colon_none by exact L. try reflexivity.
+Qed.
+
+Lemma str_eqb_same a b : Store.str_eqb a b = DomL1.str_eqb a b.
+Proof. reflexivity. Qed.
+
+Lemma attrs_local_abs s e eit name :
+  TreeInv s -> Printable s -> get s e = Some eit ->
+  DomL1.attrs_local (abs_store s) e name = filter (local_is s name) (iattrs eit).
+Proof.
+  intros T P He. unfold DomL1.attrs_local, DomL1.attrs. rewrite (node_abs s e T), He. cbn [option_map abs_item DomL1.n_attrs].
+  apply filter_ext_in. intros i Hi.
+  destruct (lists_live_child s T e i) as [it Hit]; [exists eit; split; [exact He | right; exact Hi]|].
+  destruct (ti_attr_kind s T e eit i it He Hi Hit) as [_ Ki].
+  unfold DomL1.local_named, DomL1.name_of, local_is. rewrite (node_abs s i T), Hit. cbn [option_map abs_item DomL1.n_name].
+  unfold abs_name. rewrite Ki. pose proof (P i it Hit) as Oi. unfold item_ok in Oi. rewrite Ki in Oi.
+  rewrite (local_part_qname it Oi). symmetry. apply str_eqb_same.
+Qed.
+
+Lemma list_eqb_eq a : forall b, DomL1.list_eqb a b = true -> a = b.
+Proof.
+  induction a as [|x a IH]; intros [|y b] H; cbn [DomL1.list_eqb] in H; try discriminate; [reflexivity|].
+  apply andb_true_iff in H. destruct H as [H1 H2]. apply N.eqb_eq in H1. subst y. f_equal. apply IH. exact H2.
+Qed.
+
+Theorem step_refines_partial_remove_attribute : forall w (r : nref) name,
+  WInv w -> WPrintable w ->
+  DomL1.conforms (abs w) (DomL1.ARemoveAttribute r name) (abs (fst (step w (RemoveAttribute r name))))
+                 (outcome_class (snd (step w (RemoveAttribute r name)))).
+Proof.
+  intros w r name Hw Hp. rewrite conforms_conf. cbn [step DomL1.dom_step]. unfold DomL1.remove_attribute, on_element, on_node.
+  rewrite doc_of_abs. change (@fst N N r) with (@fst N id r).
+  destruct (doc_at w (fst r)) as [s|] eqn:D; cbn [option_map]; [|apply conf_exact; [discriminate | reflexivity | reflexivity]].
+  pose proof (doc_at_P TreeInv w _ s Hw D) as T. pose proof (doc_at_P Printable w _ s Hp D) as P.
+  rewrite (aget_abs w r s Hw D). unfold kind_of.
+  destruct (get s (snd r)) as [rit|] eqn:Hr; cbn [option_map]; [|apply conf_exact; [discriminate | reflexivity | reflexivity]].
+  change (DomL1.n_type (abs_item rit)) with (abs_type (ikind rit)).
+  destruct (kind_eqb_spec (ikind rit) KEl) as [Kr|Kr].
+  2:{ destruct (ikind rit); try contradiction; cbn [abs_type fst snd]; rewrite (set_doc_same w (fst r) s D);
+        apply conf_exact; try discriminate; reflexivity. }
+  rewrite Kr. cbn [abs_type fst snd].
+  change (@snd N N r) with (@snd N id r).
+  pose proof (attrs_local_abs s (snd r) rit name T P Hr) as HL.
+  destruct (abs_remove_attrs s (snd r) rit (local_is s name) (filter (local_is s name) (iattrs rit)) T Hr eq_refl) as [A1 _].
+  fold (remove_attribute s (snd r) name) in A1.
+  destruct (DomL1.lookup_clear (abs_store s) (snd r) name) eqn:LC.
+  - unfold DomL1.lookup_clear in LC. apply andb_true_iff in LC. destruct LC as [LC _]. apply list_eqb_eq in LC.
+    apply conf_exact; [discriminate | | reflexivity]. cbn [fst]. rewrite abs_set_doc. f_equal. rewrite A1, LC, HL. reflexivity.
+  - unfold conf. cbn [fst snd]. split; [discriminate|]. right. rewrite abs_set_doc. f_equal. rewrite A1, HL. reflexivity.
+Qed.
+
+(** ** remove_named_item.  The finding class C13-NS-HIDDEN: an attribute with that local name is a
+    namespace declaration (kept out of the [attributes()] map by the implementation) *)
+Definition KnownNsHidden (w : world) (r : nref) (name : str) : bool :=
+  match doc_at w (fst r) with
+  | Some s => existsb (fun a => local_is s name a && attr_is_ns s a) (attrs_of s (snd r))
+  | None => false
+  end.
+
+Lemma find_filter_hd {A} (f g : A -> bool) : forall l,
+  (forall x, In x l -> f x = true -> g x = true) -> find f (filter g l) = hd_error (filter f l).
+Proof.
+  induction l as [|a l IH]; intros H; cbn [filter find]; [reflexivity|].
+  destruct (f a) eqn:Fa.
+  - rewrite (H a (or_introl eq_refl) Fa). cbn [find]. rewrite Fa. reflexivity.
+  - destruct (g a); cbn [find]; [rewrite Fa|]; apply IH; intros x Hx; apply H; right; exact Hx.
+Qed.
+
+Theorem step_refines_partial_remove_named_item : forall w (r : nref) name,
+  WInv w -> WPrintable w -> KnownNsHidden w r name = false ->
+  DomL1.conforms (abs w) (DomL1.ARemoveNamedItem r name) (abs (fst (step w (RemoveNamedItem r name))))
+                 (outcome_class (snd (step w (RemoveNamedItem r name)))).
+Proof.
+  intros w r name Hw Hp Hk. rewrite conforms_conf. cbn [step DomL1.dom_step]. unfold DomL1.remove_named_item, on_element, on_node.
+  unfold KnownNsHidden in Hk. rewrite doc_of_abs. change (@fst N N r) with (@fst N id r).
+  destruct (doc_at w (fst r)) as [s|] eqn:D; cbn [option_map]; [|apply conf_exact; [discriminate | reflexivity | reflexivity]].
+  pose proof (doc_at_P TreeInv w _ s Hw D) as T. pose proof (doc_at_P Printable w _ s Hp D) as P.
+  rewrite (aget_abs w r s Hw D). unfold kind_of. unfold attrs_of in Hk.
+  destruct (get s (snd r)) as [rit|] eqn:Hr; cbn [option_map]; [|apply conf_exact; [discriminate | reflexivity | reflexivity]].
+  change (DomL1.n_type (abs_item rit)) with (abs_type (ikind rit)).
+  destruct (kind_eqb_spec (ikind rit) KEl) as [Kr|Kr].
+  2:{ destruct (ikind rit); try contradiction; cbn [abs_type fst snd]; rewrite (set_doc_same w (fst r) s D);
+        apply conf_exact; try discriminate; reflexivity. }
+  rewrite Kr. cbn [abs_type].
+  change (@snd N N r) with (@snd N id r).
+  pose proof (attrs_local_abs s (snd r) rit name T P Hr) as HL.
+  destruct (abs_remove_attrs s (snd r) rit (local_is s name) (filter (local_is s name) (iattrs rit)) T Hr eq_refl) as [A1 _].
+  fold (remove_attribute s (snd r) name) in A1.
+  (* what the lookup through the attributes() map finds *)
+  assert (Hfind : get_attribute_node s (snd r) name = hd_error (filter (local_is s name) (iattrs rit))).
+  { unfold get_attribute_node, plain_attrs, attrs_of. rewrite Hr. apply find_filter_hd.
+    intros x Hx Fx. destruct (attr_is_ns s x) eqn:Ns; [|reflexivity]. exfalso.
+    assert (existsb (fun a => local_is s name a && attr_is_ns s a) (iattrs rit) = true)
+      by (apply existsb_exists; exists x; split; [exact Hx | rewrite Fx, Ns; reflexivity]). congruence. }
+  rewrite Hfind.
+  destruct (DomL1.lookup_clear (abs_store s) (snd r) name) eqn:LC.
+  - unfold DomL1.lookup_clear in LC. apply andb_true_iff in LC. destruct LC as [LC1 LC2]. apply list_eqb_eq in LC1.
+    rewrite LC1, HL in *. destruct (filter (local_is s name) (iattrs rit)) as [|x [|y t]] eqn:F; try discriminate; cbn [hd_error fst snd].
+    + rewrite (set_doc_same w (fst r) s D). apply conf_exact; [discriminate | reflexivity | reflexivity].
+    + apply conf_exact; [discriminate | | reflexivity]. cbn [fst]. rewrite abs_set_doc. f_equal. exact A1.
+  - rewrite HL. destruct (filter (local_is s name) (iattrs rit)) as [|x t] eqn:F; cbn [hd_error fst snd]; unfold conf; cbn [fst snd].
+    + split; [discriminate|]. left. rewrite (set_doc_same w (fst r) s D). reflexivity.
+    + split; [discriminate|]. right. rewrite abs_set_doc. f_equal. exact A1.
+Qed.
